@@ -856,6 +856,15 @@ class Frame:
                     ii = [ii[0], 0] if mv.cols == 1 else [0, ii[0]]
                 return mv.get(ii[0], ii[1])
             fn = n.get("fn") or ""
+            # std::array<T, N> a = {{ ... }};  a[i] with a constant index (same as a C array)
+            if op == "[]" and fn.startswith("std::array<") and len(idx) == 1 and idx[0][0] == "num":
+                tv = self.fz(t)
+                while isinstance(tv, tuple) and tv[:2] == ("call", "initlist") and len(tv[2]) == 1 and \
+                        isinstance(tv[2][0], tuple) and tv[2][0][:2] == ("call", "initlist"):
+                    tv = tv[2][0]
+                if isinstance(tv, tuple) and tv[:2] == ("call", "initlist") and idx[0][1].denominator == 1 and \
+                        0 <= int(idx[0][1]) < len(tv[2]):
+                    return tv[2][int(idx[0][1])]
             if fn.startswith("Eigen::") or "Eigen::" in (tgt_n.get("t") or ""):
                 return ("elem", self.fz(t)) + idx
             if n.get("mg") in self.F.functions:
